@@ -68,6 +68,24 @@ DESC = {
     "C16-D": ("`entry().or_insert` on a reused channel: the abandoned partial message wins over the new one", "transfers abandoned after k packets followed by a new message on the same channel added"),
     "C19-C": ("counter re-read before the increment re-runs the *query* instead of looking up the selected credential: with an id-less request and a newest-first store another credential's counter is used", "sequential warm-up assertions on every seeded credential + a conforming newest-first store answering id-less lookups added"),
     "C19-D": ("counter update result dropped via `.ok()` in a helper: a refused update no longer fails the assertion", "reference-store configurations that refuse one counter update added"),
+    "C01-C": ("`origin.host_str()` for `origin.domain()`: IPv4-literal origins accepted as DNS names", ""),
+    "C01-D": ("Android path checks the registrable-domain rule on the asset-link host instead of the effective RP id", ""),
+    "C05-C": ("single-slot store matches the id list with `all` instead of `any`", ""),
+    "C05-D": ("`get_assertion` looks the credential up under the lower-cased RP id but signs for the raw one", "an RP id that differs only in letter case added as a separate RP"),
+    "C06-C": ("non-UV PRF secret derived as HMAC(UV secret, fixed label hash): evaluating the UV PRF at that one salt returns the stored secret", "NOT caught: the witness salt can only be derived from the changed source; a monitor of returned values never sees it (limit, §8)"),
+    "C06-D": ("pretty Debug (`{:#?}`) of a passkey prints hex(x‖d) as 'public_key' (wrong registry constant for the private parameter)", ""),
+    "C08-C": ("`checked_add` yields `None` at 2³²−1: the credential silently becomes counter-less and reports 0", ""),
+    "C08-D": ("silent assertions (no presence, no verification reported) do not advance the counter", "silent assertions (up=uv=false, nothing reported) added to the histories"),
+    "C10-C": ("a parent's wildcard is no longer applied when the label exists as an explicit parent-only node (nested wildcard families)", ""),
+    "C10-D": ("one flipped bit in the generated table grafts `ne.jp`'s sub-tree under `ne.kr` (phantom rules no list rule points to)", "probes derived from a walk of the compiled table's own nodes added"),
+    "C11-C": ("`credProps` output dropped when the registration also yields a PRF output", "PRF requested-and-configured added as a dimension of the product"),
+    "C11-D": ("counter write-back after `user_handle.take()`: the first assertion on a counted credential erases its stored user handle", "signature counters on/off added as a dimension; stored handle re-checked after the assertions"),
+    "C12-C": ("header-only fast path: a 37-byte input with AT/ED set decodes", ""),
+    "C12-D": ("`set_flags` masks AT|ED while the extension setters still go through it: ED never set", ""),
+    "C17-C": ("payload slice loses its upper bound: register frames carrying the trailing Le field are rejected", ""),
+    "C17-D": ("authentication looks the credential up under standard base64(application) while registration files it under base64url", ""),
+    "C18-C": ("trait `get_info` serves a cached `rk` bit that is never invalidated", "sequences of 2–4 operations on the same authenticator with store-capability flips in between added"),
+    "C18-D": ("trait route enforces a 1024-byte message limit the direct methods do not have", "requests with 20–45 list entries (> 1 KiB) added"),
 }
 
 
